@@ -62,6 +62,7 @@ var glTargets = []glTarget{
 	{pkg: "service", recv: "", name: "MakeCipherEntry", opaque: map[string]bool{"NewServerSaltGenerator": true}},
 	{pkg: "service", recv: "", name: "findAccessKeyUDP", listElem: "CipherEntry", opaque: map[string]bool{"Unpack": true}, drop: map[string]bool{"debugUDP": true}},
 	{pkg: "service", recv: "", name: "drainErrToString"},
+	{pkg: "service", recv: "packetHandler", name: "validatePacket", opaque: map[string]bool{"SplitAddr": true, "ResolveUDPAddr": true, "ensureConnectionError": true, "String": true}},
 	{pkg: "service", recv: "streamHandler", name: "handleConnection", trace: true, opaque: map[string]bool{"getProxyRequest": true, "proxyConnection": true, "FuncStreamDialer": true, "Copy": true, "absorbProbe": true}},
 	{pkg: "service", recv: "", name: "findEntry", listElem: "CipherEntry", opaque: map[string]bool{"Unpack": true}, drop: map[string]bool{"debugTCP": true}},
 	{pkg: "service/metrics", recv: "measuredConn", name: "Read"},
@@ -212,6 +213,11 @@ func isNamed(t types.Type, pkg, name string) bool {
 }
 
 func (g *golean) leanType(t types.Type, strBytes bool, f *glFn) string {
+	if a, ok := t.(*types.Alias); ok {
+		if _, isSig := types.Unalias(a).Underlying().(*types.Signature); isSig && a.Obj().Pkg() != nil {
+			return "(Opaque " + leanStr(a.Obj().Pkg().Name()+"."+a.Obj().Name()) + ")" // a function value the code only stores and calls
+		}
+	}
 	switch {
 	case isNamed(t, "time", "Time"), isNamed(t, "time", "Duration"):
 		return "Int"
@@ -350,6 +356,9 @@ func (g *golean) fieldKept(v *types.Var) bool {
 	if _, ok := t.Underlying().(*types.Chan); ok {
 		return false
 	}
+	if _, ok := t.(*types.Signature); ok {
+		return false // a function stored in the object: what it does is a parameter (`field_<name>`) of the functions that call it
+	}
 	return true
 }
 
@@ -476,6 +485,12 @@ func (f *glFn) expr(e ast.Expr) string {
 			}
 		}
 		if sel, ok := f.p.TypesInfo.Selections[x]; ok && sel.Kind() == types.FieldVal {
+			if xt := f.leanType(f.typeOf(x.X)); strings.HasPrefix(xt, "(Opaque ") && !isConnErr(f.typeOf(x.X)) {
+				// a field of an object of another module the code holds by pointer (tgtUDPAddr.IP): a projection that is a parameter
+				pname := lid(strings.NewReplacer("(Opaque \"", "", "\")", "", ".", "_").Replace(xt) + "_" + x.Sel.Name)
+				f.addExtra(pname, xt+" → "+f.leanType(sel.Obj().Type()))
+				return "(" + pname + " " + f.expr(x.X) + ")"
+			}
 			if isConnErr(f.typeOf(x.X)) {
 				if x.Sel.Name == "Status" {
 					return "(← " + f.expr(x.X) + ")" // dereferencing a nil *ConnectionError panics
@@ -1027,8 +1042,12 @@ func (f *glFn) call(c *ast.CallExpr, value bool) string {
 			ats = append(ats, f.leanType(sig.Params().At(i).Type()))
 			as = append(as, f.expr(c.Args[i]))
 		}
-		f.addExtra(lid(fn.Name()), strings.Join(ats, " → ")+" → "+f.resultType(sig))
-		return "(" + lid(fn.Name()) + " " + strings.Join(as, " ") + ")"
+		pname := lid(fn.Name())
+		if !isRepoPkg(rp) {
+			pname = lid(rn + "_" + fn.Name()) // a method of a type of another module (socks.Addr.String)
+		}
+		f.addExtra(pname, strings.Join(ats, " → ")+" → "+f.resultType(sig))
+		return "(" + pname + " " + strings.Join(as, " ") + ")"
 	}
 	if rn == "" && f.t.opaque[fn.Name()] {
 		var ats []string
